@@ -3,7 +3,9 @@
 (* Trace validation for C15.  One trace = one execution against the real   *)
 (* plinio.cost.CostSpec:                                                   *)
 (*   [dflt |-> "zero"|"fail",                                              *)
-(*    ev   |-> << [a |-> "reg", ty, p] | [a |-> "get", ty, sat, res] ...>>]*)
+(*    ev   |-> << [a |-> "reg", ty, p] | [a |-> "get", ty, d, res] ...>>]  *)
+(* d = the layer description (cin, cout, groups, kernel, usr flag); which  *)
+(* constraints it satisfies is decided by CostLookup!RefSat.               *)
 (* "reg" events are replayed with the spec's Register step; for every      *)
 (* "get" event the logged result `res` (as observed on the real object) is *)
 (* compared with RefLookup on the history registered SO FAR.               *)
@@ -28,7 +30,7 @@ Walk(ev, i, reg, dflt) ==
               THEN "trace: duplicate registration"
               ELSE Walk(ev, i + 1, Append(reg, <<e.ty, e.p>>), dflt)
          ELSE \* "get"
-              LET sat  == ToSet(e.sat)
+              LET sat  == RefSat(e.d)      \* decided HERE from the logged layer description, not by the harness
                   ref  == RefLookup(reg, e.ty, sat, dflt)
                   obs  == e.res
               IN  IF obs = ref
